@@ -106,10 +106,13 @@ def _ec_pool(r, f, focus, max_diff):
     enabled |= {"weak_priv", "small_diff"}
   pair_id = 0
   if "weak_priv" in enabled:
-    for c in curves:
+    # on every curve of the pool, or on one only (then a mixed-curve batch has
+    # exactly one curve partition with a positive verdict)
+    on = list(curves) if r.random() < 0.5 else [r.choice(curves)]
+    for c in on:
       pool.append(ec_weak_priv_spec(r, c, k_first))
     for _ in range(r.randint(0, 2)):
-      pool.append(ec_weak_priv_spec(r, r.choice(curves), k_first))
+      pool.append(ec_weak_priv_spec(r, r.choice(on), k_first))
   if "overshoot" in enabled and r.random() < 0.5:
     pool.append(A.ec_overshoot(r, c1))
   if "small_diff" in enabled:
@@ -182,8 +185,12 @@ def _ec_pool(r, f, focus, max_diff):
                          "binary_curve"))
   if "weak_curve" in enabled:
     c192 = A.curve_by_name("secp192r1")
-    a = A.ec_healthy(r, c192)
-    a.update(fam="weak_curve", healthy=False)
+    if r.random() < 0.5:
+      a = A.ec_healthy(r, c192)
+      a.update(fam="weak_curve", healthy=False)
+    else:
+      # weak for two independent reasons: the curve and the private key
+      a = ec_weak_priv_spec(r, c192)
     pool.append(a)
   if not pool:
     pool.append(A.ec_healthy(r, c1))
@@ -209,6 +216,14 @@ def gen_ec(r, tier, f, focus):
   if r.random() < f["preann"]:
     for j in r.sample(range(n), r.randint(1, min(3, n))):
       initial[str(j)] = G.rand_annotation(r, "ec", names, pool[j])
+  for j in range(n):
+    # a key that an earlier pipeline stage already marked weak for another
+    # reason must still get its own verdict from every check
+    if pool[j]["fam"].startswith(("weak_priv", "small_diff")) and \
+        str(j) not in initial and r.random() < 0.2:
+      initial[str(j)] = {"weak": True, "ver": "1.0.0",
+                         "entries": [["CheckFromAnEarlierStage", True, 2]],
+                         "infos": []}
   length = r.randint(*f["hist"])
   # budget of "expensive units": one unit = one curve partition of
   # ExtendedBatchDL (about 2.2 s and 260 MB), counted twice per step
@@ -220,6 +235,14 @@ def gen_ec(r, tier, f, focus):
     """<= 2 curves with tables, preferably k_first keys on the main curve."""
     cand = list(range(n))
     r.shuffle(cand)
+    if len(curves) > 1 and r.random() < 0.5:
+      # one key of each curve first: mixed-curve partitions
+      firsts = []
+      for c in curves:
+        js = [j for j in cand if pool[j]["curve"] == c.cid]
+        if js:
+          firsts.append(js[0])
+      cand = firsts + [j for j in cand if j not in firsts]
     batch, seen = [], set()
     for j in cand:
       cid = pool[j]["curve"]
@@ -272,6 +295,12 @@ def gen_ec(r, tier, f, focus):
       items = G.oracle_items(r, batch, pool, "ec", True, p,
                              joint_extra=lambda j: _far_from_all(pool, j))
       op["oracle"] = items[:1]
+      edge = [j for j in batch if pool[j]["fam"].startswith("weak_priv") and
+              pool[j]["truth"].get("edge", "").startswith("j=")]
+      if not op["oracle"] and edge and len(batch) > 1 and budget >= 1 and \
+          r.random() < 0.5:
+        # the same key alone: another list length, hence another table size
+        op["oracle"] = [{"relation": "alone", "order": [edge[0]]}]
       if op["oracle"]:
         budget -= max(1, _curve_count(pool, op["oracle"][0]["order"]))
     else:
@@ -327,6 +356,21 @@ def gen_ec(r, tier, f, focus):
       length += 3
   pair_c1 = [j for j in range(n) if pool[j]["fam"] == "small_diff"]
   chain = [j for j in range(n) if pool[j]["fam"] == "small_diff_chain"]
+  dup_idx = [j for j in range(n) if pool[j]["fam"] == "duplicate"]
+  if dup_idx and pair_c1 and r.random() < 0.6:
+    # identical keys and a close pair in one batch: per-key bookkeeping
+    # (indexes, partner mapping) must survive skipped duplicates
+    cid = pool[pair_c1[0]]["curve"]
+    hs = [j for j in range(n) if pool[j]["healthy"] and
+          pool[j]["curve"] == cid and j not in dup_idx][:2]
+    order = [j for j in dup_idx if pool[j]["curve"] == cid] + hs + \
+        [j for j in pair_c1 if pool[j]["curve"] == cid]
+    if r.random() < 0.4:
+      r.shuffle(order)
+    ops.append({"op": "check", "batch": order, "oracle": [],
+                "check": {"name": "CheckECKeySmallDifference",
+                          "how": "registry", "via": "all"}})
+    length += 1
   if chain:
     # every order of a chain: the verdicts must follow the keys
     for _ in range(r.randint(1, 2)):
@@ -364,8 +408,13 @@ def gen_ec(r, tier, f, focus):
   while len(ops) < length:
     u = r.random()
     if dups and u < 0.17:
-      # a batch made only of identical keys
-      name = r.choice(["CheckECKeySmallDifference", "CheckValidECKey"])
+      # a batch made only of identical keys (possibly in different encodings)
+      choices = ["CheckECKeySmallDifference", "CheckValidECKey"]
+      if budget >= 1:
+        choices += ["CheckWeakECPrivateKey", "CheckWeakECPrivateKey"]
+      name = r.choice(choices)
+      if name == "CheckWeakECPrivateKey":
+        budget -= 1
       ops.append({"op": "check", "batch": list(dups), "oracle": [],
                   "check": {"name": name, "how": "registry", "via": "all"}})
       continue
@@ -766,7 +815,9 @@ def gen_ecdsa(r, tier, f, focus):
                 "issuer_oracle": True, "oracle": []})
     length += 2
     together_pending = {"op": "check", "check": spec, "batch": list(close),
-                        "issuer_oracle": True, "oracle": []}
+                        "issuer_oracle": True,
+                        "oracle": [{"relation": "same", "order": list(close)}]
+                        if r.random() < max(f["oracle"], 0.3) else []}
   else:
     together_pending = None
   while len(ops) < length:
